@@ -1036,6 +1036,12 @@ def eval_entropy(case):
 
     for n in rnd.sample([1, 2, 0.5, 3, np.inf, 1.5], 3):
         tol = 1e-7
+        if n < 1:
+            # a Renyi entropy with n < 1 is ill-conditioned at (numerically) zero eigenvalues: rounding noise
+            # delta ~ 1e-15 in D vanishing eigenvalues of a rank-deficient density matrix contributes up to
+            # D * delta**n / (1 - n) -- on BOTH sides (dense eigvalsh here, Schmidt values in tenpy). Found as a
+            # false alarm in the thorough tier (pure 3-site state, n=0.5: got -7e-16, dense reference 3.8e-7).
+            tol = min(1e-3, 1e-7 + 4.0 * float(np.prod(dims)) * (1e-15) ** n / (1.0 - n))
         hist.append('ext.entropy.n=%s' % n)
         # mutinf_two_site(max_range, n)
         mr = rnd.choice([None, 1, 2, L])
